@@ -13,7 +13,7 @@ from vpkit import common, zoo
 
 ID = "C30"
 N = {"quick": 220, "thorough": 6000}
-BUDGET = {"quick": 240.0, "thorough": 1500.0}
+BUDGET = {"quick": 240.0, "thorough": 700.0}
 RULE = ("case = (simulation; kept-unary simplification to a sample subset; a leaf edge cut on the left "
         "flank / middle / right flank of the last tree without simplifying; unary nodes re-flagged as "
         "samples); distinct by topology hash; non-trivial = input has >=2 trees; detectors and the "
